@@ -147,7 +147,7 @@ pub fn run(ctx: &mut Ctx) {
         ctx.replay_verdict = Some(v);
         return;
     }
-    let n = ctx.q(1500, 20000);
+    let n = ctx.q(3000, 40000);
     let maxc = ctx.q(1 << 18, 8 << 20);
     ctx.explore::<(Program, u8)>(
         "programs",
